@@ -99,7 +99,7 @@ def run(ctx):
         events.append({"kind": "order", "law": law, "a": sci(a), "b": sci(b)})
         meta.append(("order", law))
 
-    for i in range(400 if T else 120):
+    for i in range(3000 if T else 120):
         x = 10 ** rnd.uniform(-15, 15)
         y = 10 ** rnd.uniform(-7, 7)
         dB = rnd.uniform(-300, 300)
